@@ -1,6 +1,8 @@
 /-
   C16 — Heap construction lays out header and content exactly; cloning is the identity.
 -/
+import Mb2.Props.FnsBoxed
+import Mb2.Props.FnsCast
 import Mb2.Build
 import Mb2.Lemmas.Build
 namespace Mb2.C16
